@@ -15,6 +15,7 @@
 #include <sstream>
 #include <stdexcept>
 #include <string>
+#include <string_view>
 #include <vector>
 
 #include "../chaiscript_defines.hpp"
@@ -39,7 +40,19 @@ namespace chaiscript {
       const static std::unordered_set<std::uint32_t>
           words{utility::hash("def"), utility::hash("fun"), utility::hash("while"), utility::hash("for"), utility::hash("if"), utility::hash("else"), utility::hash("&&"), utility::hash("||"), utility::hash(","), utility::hash("auto"), utility::hash("return"), utility::hash("break"), utility::hash("true"), utility::hash("false"), utility::hash("class"), utility::hash("attr"), utility::hash("var"), utility::hash("global"), utility::hash("GLOBAL"), utility::hash("_"), utility::hash("__LINE__"), utility::hash("__FILE__"), utility::hash("__FUNC__"), utility::hash("__CLASS__")};
 
-      return words.count(utility::hash(s)) == 1;
+      if (words.count(utility::hash(s)) != 1) {
+        return false;
+      }
+
+      // a 32 bit hash can collide: only the exact spelling is reserved
+      constexpr std::string_view spellings[] = {"def", "fun", "while", "for", "if", "else", "&&", "||", ",", "auto", "return", "break", "true", "false", "class", "attr", "var", "global", "GLOBAL", "_", "__LINE__", "__FILE__", "__FUNC__", "__CLASS__"};
+      const std::string_view sv(s);
+      for (const auto &spelling : spellings) {
+        if (sv == spelling) {
+          return true;
+        }
+      }
+      return false;
     }
 
     template<typename T>
